@@ -1,6 +1,7 @@
 package query
 
 import (
+	"errors"
 	"fmt"
 	"strings"
 
@@ -9,6 +10,10 @@ import (
 
 // And combines multiple conditions with a logical _AND_ operator.
 func And(conditions ...Condition) Condition {
+	if len(conditions) == 1 {
+		// A group of one is just that condition, which is also what its text parses back to.
+		return conditions[0]
+	}
 	return &andCond{
 		conditions: conditions,
 	}
@@ -28,6 +33,9 @@ func (c *andCond) complies(acc accessor.Accessor) bool {
 }
 
 func (c *andCond) check() (err error) {
+	if len(c.conditions) == 0 {
+		return errors.New("and group without conditions")
+	}
 	for _, cond := range c.conditions {
 		err = cond.check()
 		if err != nil {
